@@ -548,6 +548,8 @@ func rulesC17(e *Engine, r *Report) {
 	e.shareRule(r, "C02", "R02.12", "R17.14", "a changed file is sent again: a verdict about the version sent earlier does not mark the re-scanned newer version done (it would never be queued) nor delete it")
 	// ---------------------------------------------------------------- R17.15
 	e.shareRule(r, "C13", "R13.4", "R17.15", "an unchanged file looks unchanged after a restart: the time codec of the cache file rebuilds the modification time exactly as the store produces it (time.Unix of the same seconds and nanoseconds, no change of location) - the scan and Store.Sync compare times as values")
+	// ---------------------------------------------------------------- R17.16
+	e.shareRule(r, "C07", "R07.3", "R17.16", "what was sent is remembered: a cache entry is removed only for a file the store ignores, a file that does not exist, or a done file that was deleted - not on any error of Sync (the unchanged file would be found anew and sent again)")
 }
 
 // checkNoSharedAppend: a sender-private list that is appended to must not be
